@@ -887,6 +887,8 @@ class _Simu(_IObserver, _params.Updatable, ABC):
     @mesh.setter
     def mesh(self, mesh: Mesh):
         if isinstance(mesh, Mesh):
+            # a simulation that works on element groups of its own (Beam) derives them, as its constructor does
+            mesh = self._Adapt_loaded_mesh(mesh)
             # For all old meshes, delete the matrices
             listMesh: list[Mesh] = self.__listMesh
             [m._ResetMatrix() for m in listMesh if isinstance(m, Mesh)]  # type: ignore [func-returns-value]
@@ -965,9 +967,9 @@ class _Simu(_IObserver, _params.Updatable, ABC):
         return mesh
 
     def _Adapt_loaded_mesh(self, mesh: Mesh) -> Mesh:
-        """Returns the mesh the simulation works on from a mesh of the history read from a file.
+        """Returns the mesh the simulation works on from a mesh assigned to it or read from a file of its history.
 
-        A mesh file holds plain element groups: a simulation that works on element groups of its own
+        Such a mesh holds plain element groups: a simulation that works on element groups of its own
         (Beam) overrides this function to rebuild them, as its constructor does.
         """
         return mesh
